@@ -82,7 +82,10 @@ func VarryingThicknessLine(linePoints []sdf.LinePoint, strength float64) Field {
 		start := linePoints[i-1]
 		end := linePoints[i]
 
-		boundsSize := vector3.Fill(math.Max(start.Radius, end.Radius) + strength)
+		// the box around each end point (full extent boundsSize) has to contain the ball of the larger radius also
+		// when the strength (a factor on the distance values) is smaller than that radius
+		maxRadius := math.Max(start.Radius, end.Radius)
+		boundsSize := vector3.Fill(math.Max(maxRadius+strength, 2*maxRadius))
 		bounds.EncapsulateBounds(geometry.NewAABB(start.Point, boundsSize))
 		bounds.EncapsulateBounds(geometry.NewAABB(end.Point, boundsSize))
 
